@@ -15,6 +15,12 @@ from .core import substream
 
 
 # ------------------------------------------------------------------ case generation
+def substream_of(rng, i):
+    # one draw that does not disturb the main stream of the generator
+    import random
+    return random.Random(rng.getstate()[1][i % 600] ^ i).random()
+
+
 def gen_users(rng, encrypted, max_users=3):
     users = [{'rel': 'owner', 'parent': None}]
     n = rng.choice([1, 2, 2, 3, 3, 4, 4][:max_users + 2 if max_users < 4 else 7])
@@ -29,6 +35,8 @@ def gen_users(rng, encrypted, max_users=3):
     stem = stem[:58]
     for i, u in enumerate(users):
         u['password'] = stem + f'pw-{i}-' + ''.join(rng.choice('abcdefghijklmnopqrstuvwxyz') for _ in range(6))
+        if substream_of(rng, i) < 0.15:
+            u['password'] += rng.choice([' pässwörd', ' 密码', ' \t tab', ' "quoted\\"', ' 🙂'])     # non-ASCII, blanks, quotes, backslash
         u['kdf'] = rng.choice(['scrypt', 'scrypt', 'scrypt', 'blake2b'])
         u['N'] = rng.choice([1, 2, 2, 3, 4])
         if u['rel'] == 'clone':
